@@ -19,6 +19,13 @@ func loadedIsMutated(ld *ssa.UnOp) bool {
 			if b, ok := x.Call.Value.(*ssa.Builtin); ok && b.Name() == "delete" && len(x.Call.Args) > 0 && x.Call.Args[0] == ssa.Value(ld) {
 				return true
 			}
+		case *ssa.Lookup:
+			// an element of a guarded map that is itself a slice: reordering or overwriting its elements in place
+			// (sort.Slice on it or on what append made of it, a store through an index) changes what readers of
+			// the map see, although the map itself is only read
+			if x.X == ssa.Value(ld) && sliceMutatedInPlace(x, map[ssa.Value]bool{}) {
+				return true
+			}
 		case *ssa.IndexAddr:
 			if x.X == ssa.Value(ld) {
 				if er := x.Referrers(); er != nil {
@@ -27,6 +34,82 @@ func loadedIsMutated(ld *ssa.UnOp) bool {
 							return true
 						}
 					}
+				}
+			}
+		}
+	}
+	return false
+}
+
+// sliceMutatedInPlace: the slice value v (or a slice sharing its backing array: a re-slice, the result of
+// append(v, ...), a phi of those) has elements stored into or is handed to an in-place sorter / copy target.
+func sliceMutatedInPlace(v ssa.Value, seen map[ssa.Value]bool) bool {
+	if seen[v] {
+		return false
+	}
+	seen[v] = true
+	refs := v.Referrers()
+	if refs == nil {
+		return false
+	}
+	for _, r := range *refs {
+		switch x := r.(type) {
+		case *ssa.Extract:
+			if sliceMutatedInPlace(x, seen) {
+				return true
+			}
+		case *ssa.IndexAddr:
+			if x.X == v {
+				if er := x.Referrers(); er != nil {
+					for _, s := range *er {
+						if st, ok := s.(*ssa.Store); ok && st.Addr == ssa.Value(x) {
+							return true
+						}
+					}
+				}
+			}
+		case *ssa.Slice:
+			if x.X == v && sliceMutatedInPlace(x, seen) {
+				return true
+			}
+		case *ssa.Store:
+			// kept in a local variable (one that a closure captures lives in a cell): follow its loads
+			if a, ok := x.Addr.(*ssa.Alloc); ok && x.Val == v {
+				if ar := a.Referrers(); ar != nil {
+					for _, u := range *ar {
+						if ld, ok := u.(*ssa.UnOp); ok && sliceMutatedInPlace(ld, seen) {
+							return true
+						}
+					}
+				}
+			}
+		case *ssa.Phi:
+			if sliceMutatedInPlace(x, seen) {
+				return true
+			}
+		case *ssa.MakeInterface:
+			if er := x.Referrers(); er != nil {
+				for _, u := range *er {
+					if c, ok := u.(ssa.CallInstruction); ok {
+						if f, ok := c.Common().Value.(*ssa.Function); ok {
+							switch f.String() {
+							case "sort.Slice", "sort.SliceStable", "sort.Sort", "sort.Stable":
+								return true
+							}
+						}
+					}
+				}
+			}
+		case *ssa.Call:
+			if b, ok := x.Call.Value.(*ssa.Builtin); ok && len(x.Call.Args) > 0 && x.Call.Args[0] == v {
+				switch b.Name() {
+				case "append":
+					// appending writes beyond len only; what matters is what is done with the result
+					if sliceMutatedInPlace(x, seen) {
+						return true
+					}
+				case "copy":
+					return true
 				}
 			}
 		}
